@@ -375,9 +375,10 @@ theorem openStep_runs (cfg : PartCfg) (s s' : DC) (k0 : Nat) (tag : Bool) (p : P
     split <;> first | rfl | (exfalso; simp_all)
 
 theorem closeStep_runs (cfg : PartCfg) (s s' : DC) (k0 : Nat) (tag : Bool) (p : Par) (x : Xml)
-    (hx : isBlockish x = false) (h : In s k0 tag p) (he : closeStep cfg s x = .ok s') :
+    (hx : isBlockish x = false) (h : In s k0 tag p) (hd : elemDepth x = none) (he : closeStep cfg s x = .ok s') :
     ∃ p', In s' k0 tag p' ∧ s'.root = s.root ∧ absS s' p' = closeRuns x (absS s p) := by
-  unfold closeStep at he
+  rw [closeStep_depth_none cfg s x hd] at he
+  unfold closeStepCore at he
   unfold isBlockish at hx
   unfold closeRuns
   split at he
@@ -463,7 +464,7 @@ theorem walk_runs (cfg : PartCfg) (num : Dict Str (List NumAttr)) (k0 : Nat) (ta
     have hd := elemDepth_simple _ hs
     simp only [simple, Bool.and_eq_true, Bool.not_eq_true'] at hs
     have hcell := simple_not_cell _ hs.1
-    simp only [walk, hd, setCaret_none, ok_bind, hcell, Bool.or_false] at h
+    simp only [walk, hd, setCaretOpen_none, setCaret_none, ok_bind, hcell, Bool.or_false] at h
     obtain ⟨roots, hroots, h⟩ := bind_ok h
     obtain ⟨⟨s2, rec⟩, h2, h⟩ := bind_ok h
     obtain ⟨s3, h3, h⟩ := bind_ok h
@@ -486,12 +487,12 @@ theorem walk_runs (cfg : PartCfg) (num : Dict Str (List NumAttr)) (k0 : Nat) (ta
     | true =>
       simp only [if_true] at h3 ⊢
       obtain ⟨p3, i3, r3, o3⟩ := walkL_runs cfg num k0 tag c ks s2 s3 p2 hs.2 i2 h3
-      obtain ⟨p4, i4, r4, o4⟩ := closeStep_runs cfg s3 s4 k0 tag p3 _ hs.1 i3 h4
+      obtain ⟨p4, i4, r4, o4⟩ := closeStep_runs cfg s3 s4 k0 tag p3 _ hs.1 i3 hd h4
       exact ⟨p4, i4, (r4.trans r3).trans r2, by simp only [o3, ok_bind, o4]; rfl⟩
     | false =>
       simp only [Bool.false_eq_true, if_false] at h3 ⊢
       have := pure_ok h3; subst this
-      obtain ⟨p4, i4, r4, o4⟩ := closeStep_runs cfg s2 s4 k0 tag p2 _ hs.1 i2 h4
+      obtain ⟨p4, i4, r4, o4⟩ := closeStep_runs cfg s2 s4 k0 tag p2 _ hs.1 i2 hd h4
       exact ⟨p4, i4, r4.trans r2, by simp only [pure, Except.pure, ok_bind, o4]⟩
   | .comment _ _, s, s', p, _, hin, h => by
     simp only [walk] at h; have := pure_ok h; subst this; exact ⟨p, hin, rfl, rfl⟩
